@@ -33,6 +33,7 @@ def run(ctx):
     ctx.do(CA.rule_c2, "ProjectiveObject", scope=ctx.scope(ENTRIES))
     ctx.do(CA.rule_cls1, "Representation")
     ctx.do(CA.rule_cls1, "ProjectiveObject")
+    ctx.do(P.rule_ts1)
     ctx.do(SH.rule_sh3)
     ctx.do(u1, ENTRIES, min_functions=20)
     ctx.r.assume("associativity, identity and inverse laws as numerical "
